@@ -359,7 +359,8 @@ class Env:
             self.mm = metamodel_from_file("/sim/g/main.tx", **kw)
         else:
             self.mm = metamodel_from_str(("Top: Model | INT;\n" if cfg.get("prim_root") else "") + grammar(), **kw)
-        if cfg.get("built_twice") and self.classes and not cfg.get("grammar_files") and not cfg.get("prim_root"):
+        if cfg.get("built_twice") and self.classes and not cfg.get("grammar_files") and not cfg.get("prim_root") \
+                and not cfg["global_repo"]:
             # the same user classes handed to a second metamodel of the same grammar, built later; the loads use the
             # first one (an application that builds its metamodel per request)
             self.mm_later = metamodel_from_str(grammar(), **kw)
@@ -733,7 +734,10 @@ def draw_cfg(t, prop, nfiles):
         "memo": t.chance(1, 5, "memo"),
         "global_repo": t.chance(1, 2 if prop == "C13" else 3, "global-repo"),
         "grammar_files": t.chance(1, 5, "grammar-in-several-files"),
-        "built_twice": t.chance(1, 6, "metamodel-built-twice-with-the-same-classes"),
+        # (success path of C13 only: textX keeps `_tx_metamodel` on the class, so after a second metamodel has been
+        # built with the same classes the clean-up of a *failed* load looks into the wrong metamodel's repository - a
+        # limitation of sharing classes between metamodels, recorded in DESIGN.md section 6, not generated)
+        "built_twice": prop == "C13" and t.chance(1, 6, "metamodel-built-twice-with-the-same-classes"),
         # two registered languages (files f<odd>.n belong to a second metamodel with processors of its own); the main
         # language may have no object processors at all
         "two_langs": prop == "C13" and family in ("plainuri", "fqnuri") and t.chance(1, 4, "two-languages"),
